@@ -55,6 +55,8 @@ struct C<'a> {
     /// configured servers the stack keeps (DNS_MAX_SERVER_COUNT)
     n_servers: usize,
     all_servers: Vec<IpAddr>,
+    /// the server list the application has configured at this moment
+    cur_servers: Vec<IpAddr>,
     /// the node sits on an Ethernet (unreachable-servers mode): its hardware address, for the frames handed to it
     eth_mac: Option<[u8; 6]>,
     /// total time by which polls came later than poll_at asked (a stalled application)
@@ -127,7 +129,7 @@ pub fn run(tape: &mut Tape, props: Props, thorough: bool, trace_on: bool) -> Out
     let h = node.sockets.add(sock);
     let desc = format!("dns dual-stack={} v6={} servers={:?} unreachable={}", dual, v6, servers, ["no", "on-link servers never resolve (Ethernet)", "off-link servers without a route (Ethernet)"][unreachable as usize]);
     let eth_mac = if unreachable != 0 { Some(cfg.mac) } else { None };
-    let mut c = C { tape, props, node, view, now: 1_000_000, stats: Stats::default(), hash: LogHash::new(), trace: vec![], trace_on, events: 0, v, servers: servers[..1].to_vec(), h, qs: vec![], pending_rx: vec![], n_servers: nserv.min(cfg_value("DNS_MAX_SERVER_COUNT", 1)), all_servers: servers[..nserv.min(cfg_value("DNS_MAX_SERVER_COUNT", 1))].to_vec(), eth_mac, late_total: 0 };
+    let mut c = C { tape, props, node, view, now: 1_000_000, stats: Stats::default(), hash: LogHash::new(), trace: vec![], trace_on, events: 0, v, servers: servers[..1].to_vec(), h, qs: vec![], pending_rx: vec![], n_servers: nserv.min(cfg_value("DNS_MAX_SERVER_COUNT", 1)), all_servers: servers[..nserv.min(cfg_value("DNS_MAX_SERVER_COUNT", 1))].to_vec(), cur_servers: servers[..nserv.min(cfg_value("DNS_MAX_SERVER_COUNT", 1))].to_vec(), eth_mac, late_total: 0 };
     let mut r = body(&mut c, thorough);
     // "no response content can make processing panic or loop" is part of C19 itself
     if let Err(v) = &mut r {
@@ -607,6 +609,7 @@ fn body(c: &mut C, thorough: bool) -> Result<(), Violation> {
             let h = c.h;
             let s = c.node.sockets.get_mut::<dns::Socket>(h);
             guard("dns::update_servers", || s.update_servers(&subset))?;
+            c.cur_servers = all.iter().take(k).cloned().collect();
             c.stats.inc("dns.servers-updated");
             // the fail-over timing clauses speak about an unchanged server list
             for q in c.qs.iter_mut().filter(|q| !q.done) {
@@ -711,8 +714,24 @@ fn body(c: &mut C, thorough: bool) -> Result<(), Violation> {
                 }
                 out
             });
+            // a unicast response counts only if it comes from a server that is configured when it arrives
+            let (fsrc, fsport) = if f[0] >> 4 == 4 {
+                let ihl = (f[0] & 0xf) as usize * 4;
+                (IpAddr::V4([f[12], f[13], f[14], f[15]]), u16::from_be_bytes([f[ihl], f[ihl + 1]]))
+            } else {
+                let mut a = [0u8; 16];
+                a.copy_from_slice(&f[8..24]);
+                (IpAddr::V6(a), u16::from_be_bytes([f[40], f[41]]))
+            };
+            let from_configured = fsport == 5353 || c.cur_servers.contains(&fsrc);
+            if !from_configured && !js.is_empty() {
+                c.stats.inc("dns.responses-from-a-server-no-longer-configured");
+            }
             for (qi, just, neg) in js {
                 c.qs[qi].responses_delivered += 1;
+                if !from_configured {
+                    continue;
+                }
                 if let Some(j) = just {
                     c.qs[qi].justified.push(j);
                 }
